@@ -292,6 +292,75 @@ pub fn run(maxn: usize) -> (usize, usize, Vec<DFail>) {
             check!("R-OPTCOMB: bool::then", format!("{}", c), (if c { Some(7u8) } else { None }, c as u32), (r, calls));
         }
     }
+    // ---------------- prelude/sortvec.rs (unit sort): binary_search_by, sort_by, last, position, iter_mut order (R-FOREACH, R-FOLD)
+    {
+        let kmax = maxn.min(5);
+        let mut seqs: Vec<Vec<u32>> = vec![vec![]];
+        let mut frontier: Vec<Vec<u32>> = vec![vec![]];
+        for _ in 0..kmax {
+            let mut next = Vec::new();
+            for q in &frontier {
+                for k in 0..3u32 {
+                    let mut q2 = q.clone();
+                    q2.push(k);
+                    next.push(q2);
+                }
+            }
+            seqs.extend(next.iter().cloned());
+            frontier = next;
+        }
+        for keys in &seqs {
+            let tagged: Vector<(usize, u32)> = keys.iter().cloned().enumerate().collect();
+            // sort_by: a rearrangement, ascending under the comparator (stability is NOT assumed)
+            let mut sorted = tagged.clone();
+            sorted.sort_by(|(_, a), (_, b)| a.cmp(b));
+            let mut as_set: Vec<(usize, u32)> = sorted.iter().cloned().collect();
+            as_set.sort();
+            let asc = sorted.iter().zip(sorted.iter().skip(1)).all(|(a, b)| a.1 <= b.1);
+            check!("imbl::Vector::sort_by: rearrangement, ascending under the comparator", format!("{:?}", keys), (tagged.iter().cloned().collect::<Vec<_>>(), true), (as_set, asc));
+            check!("imbl::Vector::last", format!("{:?}", keys), keys.last().cloned(), tagged.last().map(|(_, k)| *k));
+            // binary_search_by on the sorted vector, probes below / among / above the keys
+            for nv in 0..4u32 {
+                let r = sorted.binary_search_by(|(_, k)| k.cmp(&nv));
+                let ok = match r {
+                    Ok(i) => i < sorted.len() && sorted[i].1 == nv,
+                    Err(i) => i <= sorted.len() && sorted.iter().take(i).all(|(_, k)| *k < nv) && sorted.iter().skip(i).all(|(_, k)| *k > nv),
+                };
+                check!("imbl::Vector::binary_search_by: Ok(i) probe Equal at i / Err(i) Less before, Greater from i", format!("{:?} probe {}", sorted, nv), true, ok);
+                // Iterator::position: first accepted item; the predicate sees the items front to back up to that one
+                let mut seen = Vec::new();
+                let r = tagged.iter().position(|(t, k)| { seen.push(*t); *k == nv });
+                let exp = keys.iter().position(|k| *k == nv);
+                let exp_seen: Vec<usize> = (0..exp.map(|e| e + 1).unwrap_or(keys.len())).collect();
+                check!("Iterator::position over imbl iter(): first accepted item, earlier ones rejected", format!("{:?} find {}", keys, nv), (exp, exp_seen), (r, seen));
+            }
+            // R-FOREACH: iter_mut().for_each = index loop front to back, each item once
+            let mut a = tagged.clone();
+            let mut order = Vec::new();
+            a.iter_mut().for_each(|(t, _)| { order.push(*t); *t += 10; });
+            check!("R-FOREACH: iter_mut().for_each = index loop over the items in order", format!("{:?}", keys), ((0..keys.len()).collect::<Vec<_>>(), keys.iter().cloned().enumerate().map(|(i, k)| (i + 10, k)).collect::<Vec<_>>()), (order, a.iter().cloned().collect::<Vec<_>>()));
+            // R-FOLD: iter_mut().enumerate().fold = index loop with the accumulator in a variable
+            let mut a = tagged.clone();
+            let mut order = Vec::new();
+            let acc = a.iter_mut().enumerate().fold(None, |mut pos, (i, (t, k))| {
+                order.push((i, *t));
+                if pos.is_none() && *k == 1 { pos = Some(i); } else { *t += 10; }
+                pos
+            });
+            let mut b: Vec<(usize, u32)> = tagged.iter().cloned().collect();
+            let mut acc2 = None;
+            let mut kx = 0;
+            while kx < b.len() {
+                let mut pos = acc2;
+                let i = kx;
+                let (t, k) = &mut b[kx];
+                acc2 = { if pos.is_none() && *k == 1 { pos = Some(i); } else { *t += 10; } pos };
+                kx += 1;
+            }
+            check!("R-FOLD: iter_mut().enumerate().fold = index loop, accumulator in a variable", format!("{:?}", keys), (acc2, b, (0..keys.len()).map(|i| (i, i)).collect::<Vec<_>>()), (acc, a.iter().cloned().collect::<Vec<_>>(), order));
+        }
+        check!("Ordering::is_ge", "all".to_string(), (false, true, true), (std::cmp::Ordering::Less.is_ge(), std::cmp::Ordering::Equal.is_ge(), std::cmp::Ordering::Greater.is_ge()));
+    }
     // ---------------- prelude/arc.rs
     {
         use std::sync::{Arc, Weak};
